@@ -1,7 +1,7 @@
 /* C09 -- packet loss: PLC and FEC return the requested audio, stay bounded, and recover.
  * Fault enumeration over loss patterns with twin decoders.  Modes:
  *   window   one encoded stream per case; ALL 2^k loss patterns over a window of k packets (arg k=) at a random position are decoded,
- *            each lost packet concealed by a whole-packet call, by 2.5-20 ms pieces, or recovered by an FEC call on the next packet
+ *            each lost packet concealed by a whole-packet call, by 2.5-20 ms pieces (bursts also entirely in 2.5 ms calls), or recovered by an FEC call on the next packet
  *   burst    random long bursts (up to 10 s) for the decay clause, plus FEC calls with frame_size larger than the packet
  *   multiburst  60 s streams with several 4-10 s bursts in one decoder lifetime (state accumulated over loss episodes)
  * Oracles: exact requested duration, finite samples, received packets reproduce the encoder's final range, concealed level bounded by
@@ -126,7 +126,7 @@ static int decode_pattern(const cstream *s,OpusDecoder *d,OpusDecoder *clone,con
       /* call shapes: whole packet; pieces of 2.5..20 ms incl. 7.5 / 12.5 / 15 / 17.5 ms (served by the decoder in several internal steps); several lost
          packets concealed by one call of up to 120 ms.  The buffer is pre-filled with NaN so that any sample the call does not write is seen. */
       int merge=1; if(shape==0&&(i&1)==0){ while(merge<3&&i+merge<s->n&&lost[i+merge]&&(merge+1)*fs<=Fs/25*3) merge++; }
-      int total=fs*merge; int piece= shape==1?(Fs/400)*(1+(i*7+3)%8):total; if(piece>total) piece=total; int done=0; for(int k=0;k<total*ch;k++) out[k]=NAN;
+      int total=fs*merge; int piece= shape==1?(Fs/400)*(1+(i*7+3)%8): shape==4?Fs/400 /* everything in 2.5 ms calls */ :total; if(piece>total) piece=total; int done=0; for(int k=0;k<total*ch;k++) out[k]=NAN;
       if(merge>1) vc_count("plc_calls_spanning_several_packets",1);
       while(done<total){ int w=total-done<piece?total-done:piece; int rc=opus_decode_float(d,NULL,0,out+(size_t)done*ch,w,0); vc_count("plc_calls",1); if(rc!=w){ vc_viol("plc:duration","concealment call returned %d for frame_size %d (%s)",rc,w,ctx); return 1; } opus_int32 lpd=0; opus_decoder_ctl(d,OPUS_GET_LAST_PACKET_DURATION(&lpd)); if(lpd!=w){ vc_viol("plc:last-duration","last packet duration %d after concealing %d samples (%s)",lpd,w,ctx); return 1; } done+=w; }
       if(getenv("C09_DEBUG")&&atoi(getenv("C09_DEBUG"))>=6){ double e0=0,e1=0; for(int k=0;k<total;k++){ e0+=out[k*ch]*out[k*ch]; if(ch>1) e1+=out[k*ch+1]*out[k*ch+1]; } fprintf(stderr,"pkt %d LOST (toc %02x len %d) concealed %d samples rmsL %.4f rmsR %.4f\n",i,s->pkt[i][0],s->len[i],total,sqrt(e0/total),sqrt(e1/total)); if(dbg_ref){ static float o4[5760*2]; ref_opus_decode_float(dbg_ref,NULL,0,o4,total,0); double r0=0; for(int k=0;k<total;k++) r0+=o4[k*ch]*o4[k*ch]; fprintf(stderr,"      frozen reference decoder conceals the same loss at rmsL %.4f\n",sqrt(r0/total)); } }
@@ -163,7 +163,7 @@ out:
 static void mode_burst(void){
   vc_rng r; vc_case_rng(&r,10); int err; cstream s; make_stream(&r,&s,vc_range(&r,4000,12000)); if(s.n<60){ free_stream(&s); return; } OpusDecoder *d=opus_decoder_create(s.Fs,s.ch,&err); OpusDecoder *clone=(OpusDecoder*)malloc(opus_decoder_get_size(s.ch)); static unsigned char lost[MAXP]; char ctx[200]; double fe=0,pe=0; long fev=0; double Dms=s.fs*1000.0/s.Fs;
   for(int t=0;t<4;t++){ memset(lost,0,sizeof lost); int start=vc_range(&r,(int)(600/Dms)+1,s.n/2); int len= t==0?(int)(vc_range(&r,1000,10000)/Dms): t==1?(int)(vc_range(&r,1000,3000)/Dms): vc_range(&r,1,12); for(int i=start;i<start+len&&i<s.n;i++) lost[i]=1; if(t>=2) for(int i=0;i<s.n;i++) if(i>20&&vc_chance(&r,1,10)) lost[i]=1;
-    int shape=t==3?3:(int)vc_below(&r,3); snprintf(ctx,sizeof ctx,"mode %d frame %.1f ms Fs %d ch %d burst of %d packets at %d shape %d",s.mode,Dms,s.Fs,s.ch,len,start,shape); if(decode_pattern(&s,d,clone,lost,shape,ctx,&fe,&pe,&fev)) break; vc_count("burst_patterns",1); if(len*Dms>=1000) vc_count("bursts_over_1s",1); }
+    int shape=t==3?3:(int)vc_below(&r,4); if(shape==3) shape=4; snprintf(ctx,sizeof ctx,"mode %d frame %.1f ms Fs %d ch %d burst of %d packets at %d shape %d",s.mode,Dms,s.Fs,s.ch,len,start,shape); if(decode_pattern(&s,d,clone,lost,shape,ctx,&fe,&pe,&fev)) break; vc_count("burst_patterns",1); if(len*Dms>=1000) vc_count("bursts_over_1s",1); }
   vc_sig3((uint64_t)s.mode|((uint64_t)s.fidx<<12),(uint64_t)(s.Fs/8000)|((uint64_t)s.ch<<3),99);
   opus_decoder_destroy(d); free(clone); free_stream(&s);
 }
@@ -173,7 +173,7 @@ static void mode_burst(void){
 static void mode_multiburst(void){
   vc_rng r; vc_case_rng(&r,11); int err; cstream s; g_steady=(int)vc_below(&r,2); make_stream(&r,&s,60000); int steady=g_steady; g_steady=0; double Dms=s.fs*1000.0/s.Fs; if(s.n*Dms<12000){ vc_count("streams_too_short",1); free_stream(&s); return; } OpusDecoder *d=opus_decoder_create(s.Fs,s.ch,&err); OpusDecoder *clone=(OpusDecoder*)malloc(opus_decoder_get_size(s.ch)); static unsigned char lost[MAXP]; char ctx[200]; double fe=0,pe=0; long fev=0;
   memset(lost,0,sizeof lost); int i=(int)((steady?2600:700)/Dms)+1, nb=0; while(i<s.n){ int len=(int)(vc_range(&r,4000,10000)/Dms), gap=(int)(vc_range(&r,300,1200)/Dms)+1; if(i+len>=s.n-(int)(1200/Dms)) break; for(int k=i;k<i+len;k++) lost[k]=1; i+=len+gap; nb++; }
-  int shape=(int)vc_below(&r,3); snprintf(ctx,sizeof ctx,"mode %d frame %.1f ms Fs %d ch %d, %d bursts of 4-10 s in one decoder lifetime, %s, shape %d",s.mode,Dms,s.Fs,s.ch,nb,steady?"stationary noise after a quiet lead-in":"speech-like",shape);
+  int shape=(int)vc_below(&r,4); if(shape==3) shape=4; snprintf(ctx,sizeof ctx,"mode %d frame %.1f ms Fs %d ch %d, %d bursts of 4-10 s in one decoder lifetime, %s, shape %d",s.mode,Dms,s.Fs,s.ch,nb,steady?"stationary noise after a quiet lead-in":"speech-like",shape);
   cc_steady=steady; int bad=nb<2||decode_pattern(&s,d,clone,lost,shape,ctx,&fe,&pe,&fev); cc_steady=0;
   if(!bad){ vc_count("multiburst_patterns",1); vc_count("multiburst_bursts",nb); if(steady) vc_count("multiburst_stationary_patterns",1); }
   vc_sig3((uint64_t)s.mode|((uint64_t)s.fidx<<12),(uint64_t)(s.Fs/8000)|((uint64_t)s.ch<<3),77+steady);
